@@ -506,7 +506,7 @@ Print Assumptions C06_p2j_walk_f_total.
    they hand back is inside the buffer and strictly further, what they allocate (output text, DOM nodes) is linear in
    the bytes consumed, and their fuel is never the reason for an answer.
    ================================================================================================================ *)
-From DG Require Import ThriftDom ProtoGenericAlg RobustThriftWalk RobustProtoWalk.
+From DG Require Import ThriftDom ProtoGenericAlg T2JUnset RobustThriftWalk RobustProtoWalk.
 
 (* ---- conv/t2j walk ---- *)
 Theorem C06_t2j_walk_cursor :
@@ -522,14 +522,24 @@ Theorem C06_t2j_at_in_bounds :
 Proof. intros. eapply t2j_at_in_bounds; eassumption. Qed.
 Print Assumptions C06_t2j_at_in_bounds.
 
-(* allocation: the text is at most (13 + F + longest quoted key of the descriptor) characters per consumed byte,
-   F = longest float lexeme the printer emits *)
+(* allocation: the text is linear in the consumed bytes. F = longest float lexeme the printer emits; the factor
+   (1 + most fields of any struct of the descriptor) pays for handleUnsets, which at a STOP byte writes a zero value for
+   every unset required / default field when WriteRequireField / WriteDefaultField are on *)
 Theorem C06_t2j_output_linear :
   forall fd o F n d bs txt r, (forall b, (length (fd b) <= F)%nat) ->
   t2j_walk_gen fd o n d bs = Some (txt, r) ->
-  (length txt + 1 <= (13 + F + desc_maxkey d) * (length bs - length r))%nat.
+  (length txt + 1 <= (13 + F + desc_maxkey d) * (1 + desc_maxfields d) * (length bs - length r))%nat.
 Proof. intros. eapply t2j_walk_output_linear; eassumption. Qed.
 Print Assumptions C06_t2j_output_linear.
+
+(* with those two options off: (13 + F + longest quoted key) characters per consumed byte *)
+Theorem C06_t2j_output_linear_nowrite :
+  forall fd o F n d bs txt r, (forall b, (length (fd b) <= F)%nat) ->
+  T2JUnset.o_write_required o = false -> T2JUnset.o_write_default o = false ->
+  t2j_walk_gen fd o n d bs = Some (txt, r) ->
+  (length txt + 1 <= (13 + F + desc_maxkey d) * (length bs - length r))%nat.
+Proof. intros. eapply t2j_walk_output_linear_nowrite; eassumption. Qed.
+Print Assumptions C06_t2j_output_linear_nowrite.
 
 (* ---- thrift/generic path search from any cursor ---- *)
 Theorem C06_gbp_at_in_bounds :
